@@ -107,9 +107,25 @@ def is_canonical_E(E):
     return extlib.is_nondegenerate(E)
 
 
+def _no_timeout(e):
+    """The driver's per-case alarm must never be swallowed by a broad handler (it derives from BaseException in newer
+    drivers; this keeps older ones honest too)."""
+    if type(e).__name__ == 'CaseTimeout':
+        raise e
+
+
+def _err_obs(e, stage):
+    name = type(e).__name__
+    if name == 'ValueError' and str(e).startswith('abs:'):
+        return {'err': 'ECrash', 'exc': 'Abstraction', 'msg': str(e), 'stage': stage}
+    return {'err': extlib.ERRMAP.get(name, 'ECrash'), 'exc': name, 'msg': str(e)[:200], 'stage': stage}
+
+
 def snapshot_ext(x):
     """Everything of an extension that a later call must leave alone, in plain (deep-copied) form: the abstraction, the
-    serialised JSON, per key (values, class) through get_values_and_class, and the verdict of check_valid."""
+    serialised JSON PARSED back into a map (dictionary order and the exact text are not part of the property), per key
+    (values, class) through get_values_and_class, and the verdict of check_valid."""
+    import json
     per_key = {}
     for k in sorted(x.get_keys()):
         v, c = x.get_values_and_class(k)
@@ -117,45 +133,66 @@ def snapshot_ext(x):
     try:
         x.check_valid()
         valid = True
-    except Exception:           # noqa: BLE001
+    except Exception as e:      # noqa: BLE001
+        _no_timeout(e)
         valid = False
     try:
-        js = x.to_json()
+        js = json.loads(x.to_json())
     except Exception as e:      # noqa: BLE001  (to_json refuses an extension that check_valid rejects)
+        _no_timeout(e)
         js = 'exc:' + type(e).__name__
     return {'abs': extlib.ext_to_json(x), 'json': js, 'per_key': per_key, 'valid': valid}
 
 
 def run_ext_roundtrip(case):
-    def go():
-        np, dcmmeta = extlib._imports()
-        E, dim = case['ext'], case['dim']
+    """Observation: the merged extension, or {'err', 'exc', 'stage'} where stage names the operation that raised
+    ('split' = get_subset, 'merge' = from_sequence, 'observe' = reading the result back)."""
+    np, dcmmeta = extlib._imports()
+    E, dim = case['ext'], case['dim']
+    stage = 'build'
+    try:
         ext = extlib.build_ext(E)
         before = extlib.ext_to_json(ext)
+        stage = 'split'
         pieces = [ext.get_subset(dim, i) for i in range(E['shape'][dim])]
+        stage = 'observe'
         snaps = [snapshot_ext(p) for p in pieces]             # BEFORE the merge
         aff = np.array(E['aff'], dtype=float) if case['with_aff'] else None
         sd = E['sdim'] if case['with_sd'] else None
+        stage = 'merge'
         merged = dcmmeta.DcmMetaExtension.from_sequence(pieces, dim, aff, sd)
+        stage = 'observe'
         out = {'ext': extlib.ext_to_json(merged), 'input_untouched': extlib.ext_to_json(ext) == before,
                'piece_shapes': [[int(x) for x in p.shape] for p in pieces]}
-        # (b) the live inputs after the merge against their snapshots
-        live = [snapshot_ext(p) for p in pieces]
-        out['pieces_changed'] = [i for i, (a, b) in enumerate(zip(snaps, live)) if a != b]
-        out['pieces_invalid'] = [i for i, b in enumerate(live) if not b['valid']]
-        # (c) the same piece objects merged a second time
+    except Exception as e:          # noqa: BLE001  (every exception class is an observation here)
+        _no_timeout(e)
+        return _err_obs(e, stage)
+    # (b) the live inputs after the merge against their snapshots
+    live = []
+    for p in pieces:
         try:
-            merged2 = dcmmeta.DcmMetaExtension.from_sequence(pieces, dim, aff, sd)
-            out['second'] = {'same': extlib.ext_to_json(merged2) == out['ext'] and bool(merged2 == merged)}
-        except Exception as e:      # noqa: BLE001
-            out['second'] = {'exc': type(e).__name__, 'msg': str(e)[:200]}
-        # (a) merge then split: the pieces of the merged extension against the SNAPSHOTS of the inputs
-        try:
-            again = [snapshot_ext(merged.get_subset(dim, i)) for i in range(len(pieces))]
-            out['resplit_diff'] = [i for i, (a, b) in enumerate(zip(snaps, again))
-                                   if (a['abs'], a['per_key'], a['valid']) != (b['abs'], b['per_key'], b['valid'])]
-        except Exception as e:      # noqa: BLE001
-            out['resplit_exc'] = '%s: %s' % (type(e).__name__, str(e)[:200])
+            live.append(snapshot_ext(p))
+        except Exception as e:      # noqa: BLE001  (an input damaged so badly that it cannot be read back)
+            _no_timeout(e)
+            live.append({'valid': False, 'unreadable': type(e).__name__})
+    out['pieces_changed'] = [i for i, (a, b) in enumerate(zip(snaps, live)) if a != b]
+    out['pieces_invalid'] = [i for i, b in enumerate(live) if not b['valid']]
+    # (c) the same piece objects merged a second time
+    try:
+        merged2 = dcmmeta.DcmMetaExtension.from_sequence(pieces, dim, aff, sd)
+        out['second'] = {'same': extlib.ext_to_json(merged2) == out['ext'] and bool(merged2 == merged)}
+    except Exception as e:          # noqa: BLE001
+        _no_timeout(e)
+        out['second'] = {'exc': type(e).__name__, 'msg': str(e)[:200]}
+    # (a) merge then split: the pieces of the merged extension against the SNAPSHOTS of the inputs
+    try:
+        again = [snapshot_ext(merged.get_subset(dim, i)) for i in range(len(pieces))]
+        out['resplit_diff'] = [i for i, (a, b) in enumerate(zip(snaps, again))
+                               if (a['abs'], a['per_key'], a['valid']) != (b['abs'], b['per_key'], b['valid'])]
+    except Exception as e:          # noqa: BLE001
+        _no_timeout(e)
+        out['resplit_exc'] = '%s: %s' % (type(e).__name__, str(e)[:200])
+    try:
         out['eq'] = bool(merged == ext) and bool(ext == merged)
         per_key = {}
         for k in sorted(set(ext.get_keys()) | set(merged.get_keys())):
@@ -164,34 +201,44 @@ def run_ext_roundtrip(case):
             per_key[k] = bool(c0 == c1 and v0 == v1 and type(v0) is type(v1))
         out['per_key'] = per_key
         out['keys_eq'] = sorted(ext.get_keys()) == sorted(merged.get_keys())
-        try:
-            merged.check_valid()
-            out['valid'] = True
-        except Exception:       # noqa: BLE001
-            out['valid'] = False
-        return out
-    return extlib._guard(go)
+    except Exception as e:          # noqa: BLE001
+        _no_timeout(e)
+        return _err_obs(e, 'observe')
+    try:
+        merged.check_valid()
+        out['valid'] = True
+    except Exception as e:          # noqa: BLE001
+        _no_timeout(e)
+        out['valid'] = False
+    return out
 
 
-def judge_inputs(obs, what='from_sequence'):
-    """Clauses about the INPUTS of a merge (shared by both parts): untouched, still valid, mergeable again to the same result,
-    and found again when the merged object is split."""
+def input_messages(obs, what='from_sequence'):
+    """Clauses about the INPUTS of a merge (shared by all parts), every one evaluated: untouched, still valid, mergeable
+    again to the same result, and found again when the merged object is split.  -> [(tag, text)]"""
+    out = []
     if obs.get('pieces_changed'):
-        return '%s modified its input %d (snapshot taken before the merge differs from the live object afterwards)' % (
-            what, obs['pieces_changed'][0])
+        out.append(('input-modified', '%s modified its input %d (snapshot taken before the merge differs from the live object '
+                    'afterwards)' % (what, obs['pieces_changed'][0])))
     if obs.get('pieces_invalid'):
-        return 'input %d fails check_valid after the merge' % obs['pieces_invalid'][0]
+        out.append(('input-invalid', 'input %d fails check_valid after the merge' % obs['pieces_invalid'][0]))
     sec = obs.get('second')
     if sec is not None:
         if 'exc' in sec:
-            return 'merging the same pieces a second time raised %s: %s' % (sec['exc'], sec.get('msg'))
-        if not sec.get('same'):
-            return 'merging the same pieces a second time gave a different result'
+            out.append(('second-merge-raised', 'merging the same pieces a second time raised %s: %s' % (sec['exc'], sec.get('msg'))))
+        elif not sec.get('same'):
+            out.append(('second-merge-differs', 'merging the same pieces a second time gave a different result'))
     if 'resplit_exc' in obs:
-        return 'splitting the merged object raised %s' % obs['resplit_exc']
+        out.append(('resplit-raised', 'splitting the merged object raised %s' % obs['resplit_exc']))
     if obs.get('resplit_diff'):
-        return 'merge then split: piece %d differs from the input as it was before the merge' % obs['resplit_diff'][0]
-    return None
+        out.append(('resplit-differs', 'merge then split: piece %d differs from the input as it was before the merge'
+                    % obs['resplit_diff'][0]))
+    return out
+
+
+def judge_inputs(obs, what='from_sequence'):
+    m = input_messages(obs, what)
+    return '[%s] %s' % m[0] if m else None
 
 
 def ext_rt_to_coq(case, obs):
@@ -199,33 +246,138 @@ def ext_rt_to_coq(case, obs):
                                              cbool(case['with_sd']), extlib.obs_to_coq(obs))
 
 
-def oracle_ext_roundtrip(case, obs):
-    """The property on the implementation alone."""
-    if 'crash' in obs:
-        return 'harness: %s' % obs.get('msg')
+def axis_name(E, dim):
+    return 'slice' if dim == E['sdim'] else ('time' if dim == 3 else 'vector')
+
+
+def trimmed(sh):
+    sh = list(sh)
+    while len(sh) > 3 and sh[-1] == 1:
+        sh = sh[:-1]
+    return sh
+
+
+def n12_mechanism(case, obs):
+    """Open finding N12, re-derived: the shape has a trailing singleton dimension, the split is along the slice axis, nothing
+    raised, and the merged extension is EXACTLY the original with the trailing singleton axes lost: shape = original shape
+    without them, same slice dim and affine, same key set, and every key reads the same value at every grid position
+    (the lost axes have extent 1, so the grids coincide)."""
+    E, dim = case['ext'], case['dim']
+    sh = E['shape']
+    if not (extlib.trailing1(sh) and E['sdim'] is not None and dim == E['sdim'] and 'ext' in obs):
+        return False
+    R = obs['ext']
+    if R['shape'] != trimmed(sh) or R['sdim'] != E['sdim'] or R['aff'] != E['aff']:
+        return False
+    if sorted(k for k, _, _ in R['entries']) != sorted(k for k, _, _ in E['entries']):
+        return False
+    dE, dR = extlib.dims(E), extlib.dims(R)
+    if dE != dR:
+        return False
+    for k in extlib.keys_of(E, R):
+        for p in extlib.grid(dE):
+            if extlib.den(R, k, p) != extlib.den(E, k, p):
+                return False
+    return True
+
+
+def needs_global_slices(E, dim):
+    """Does merging the pieces of E along dim (3 or 4) send some key through ('global','slices')?  From the documented
+    merge rules and the generator's values only: along time in 5-D every key that is not the same constant in all pieces;
+    along the vector axis every key that varies inside a piece (a constant that merely differs between pieces becomes
+    ('vector','samples'))."""
+    sh = E['shape']
+    d = extlib.dims(E)
+    ax = extlib.merge_axis_kind(dim, E['sdim'])
+    if ax is None or dim >= len(sh):
+        return False
+    for k, _, _ in E['entries']:
+        tabs = []
+        for i in range(d[ax]):
+            tab = []
+            for p in extlib.grid(d):
+                if p[ax] == 0:
+                    q = list(p)
+                    q[ax] = i
+                    tab.append(extlib.den(E, k, tuple(q)))
+            tabs.append(tab)
+        varying_inside = any(any(x != t[0] for x in t) for t in tabs)
+        differ = any(t != tabs[0] for t in tabs)
+        if dim == 3 and len(sh) == 5 and (varying_inside or differ):
+            return True
+        if dim == 4 and varying_inside:
+            return True
+    return False
+
+
+def n3_mechanism(case, obs):
+    """Open finding N3 seen through the round trip, re-derived: no slice dimension, the axis is time or vector, every
+    get_subset succeeded, from_sequence (and not another operation) raised TypeError, and some key has to pass through
+    ('global','slices') in that merge."""
+    E, dim = case['ext'], case['dim']
+    return (E['sdim'] is None and dim in (3, 4) and obs.get('exc') == 'TypeError' and obs.get('stage') == 'merge'
+            and needs_global_slices(E, dim))
+
+
+def explained(case, obs):
+    """tag -> signature of the open finding that explains a message with this tag in this case."""
+    if n12_mechanism(case, obs):
+        # the lost axis changes the shape, hence __eq__ and the abstraction (base dictionaries); nothing else
+        return {'shape': SIG_N12, 'eq': SIG_N12, 'abstraction': SIG_N12}
+    if n3_mechanism(case, obs):
+        return {'raised': SIG_N3}
+    return {}
+
+
+def ext_rt_messages(case, obs):
+    """Every clause of the property on the implementation alone -> [(tag, text)] (all evaluated)."""
     E, dim = case['ext'], case['dim']
     if 'err' in obs:
-        return 'split along %d then merge raised %s: %s' % (dim, obs.get('exc'), obs.get('msg'))
+        return [('raised', '%s raised %s during the round trip along %d: %s' % (
+            {'split': 'get_subset', 'merge': 'from_sequence'}.get(obs.get('stage'), obs.get('stage')), obs.get('exc'), dim, obs.get('msg')))]
+    out = []
     R = obs['ext']
-    if R['shape'] != E['shape'] or R['sdim'] != E['sdim']:
-        return 'merged extension has shape %r slice dim %r, original %r / %r' % (R['shape'], R['sdim'], E['shape'], E['sdim'])
+    if R['shape'] != E['shape']:
+        out.append(('shape', 'merged extension has shape %r, original %r' % (R['shape'], E['shape'])))
+    if R['sdim'] != E['sdim']:
+        out.append(('slice-dim', 'merged extension has slice dim %r, original %r' % (R['sdim'], E['sdim'])))
     if R['aff'] != E['aff']:
-        return 'merged extension has another affine'
+        out.append(('affine', 'merged extension has another affine'))
     if not obs['eq']:
-        return 'merged extension != original (DcmMetaExtension.__eq__)'
+        out.append(('eq', 'merged extension != original (DcmMetaExtension.__eq__)'))
     if not obs['keys_eq']:
-        return 'merged extension has another key set'
+        out.append(('keys', 'merged extension has another key set'))
     bad = [k for k, ok in obs['per_key'].items() if not ok]
     if bad:
         a, b = extlib.entry_map(E).get(bad[0]), extlib.entry_map(R).get(bad[0])
-        return 'key %r: original %r, after the round trip %r' % (bad[0], a, b)
-    if R['entries'] != E['entries'] or (R['ht'], R['hv']) != (E['ht'], E['hv']):
-        return 'merged extension differs from the original in its abstraction'
+        out.append(('key-value', 'key %r: original %r, after the round trip %r' % (bad[0], a, b)))
+    if R['entries'] != E['entries']:
+        out.append(('entries', 'merged extension stores other (class, values) than the original'))
+    if (R['ht'], R['hv']) != (E['ht'], E['hv']):
+        out.append(('abstraction', 'merged extension has other base dictionaries (time / vector) than the original'))
     if not obs.get('valid', True):
-        return 'merged extension fails check_valid'
+        out.append(('invalid', 'merged extension fails check_valid'))
     if obs.get('input_untouched') is False:
-        return 'the round trip modified the original extension'
-    return judge_inputs(obs)
+        out.append(('original-modified', 'the round trip modified the original extension'))
+    return out + input_messages(obs)
+
+
+def oracle_ext_roundtrip(case, obs):
+    """Evaluate every clause; a message that no open finding explains wins."""
+    if 'crash' in obs:
+        return '[harness] %s %s' % (obs.get('crash'), obs.get('msg'))
+    msgs = ext_rt_messages(case, obs)
+    if not msgs:
+        return None
+    known = explained(case, obs)
+    for tag, text in msgs:
+        if tag not in known:
+            return '[%s] %s' % (tag, text)
+    return '[%s] %s' % msgs[0]
+
+
+def msg_tag(msg):
+    return msg[1:msg.index(']')] if msg and msg.startswith('[') and ']' in msg else 'untagged'
 
 
 class ExtRoundtripPart:
@@ -247,7 +399,7 @@ class ExtRoundtripPart:
 
     @staticmethod
     def gen_cases(rng, tier):
-        n = 400 if tier == 'quick' else 3000
+        n = 250 if tier == 'quick' else 3000
         cases = []
         for _ in range(n):
             E = gen_canonical_ext(rng, tier)
@@ -290,15 +442,13 @@ class ExtRoundtripPart:
     @staticmethod
     def signature(case, obs, msg):
         E = case['ext']
-        sh, dim = E['shape'], case['dim']
-        ax = 'slice' if dim == E['sdim'] else ('time' if dim == 3 else 'vector')
-        # the two open findings registered for C05 -- exactly their regions, exactly their strings
-        if extlib.trailing1(sh) and ax == 'slice' and 'ext' in obs and obs['ext']['shape'] != sh:
-            return 'ext-rt/%dD-trailing1/slice/wrong-value' % len(sh)                    # N12 (registered for 4-D)
-        if E['sdim'] is None and len(sh) == 5 and dim == 3 and obs.get('exc') == 'TypeError':
-            return SIG_N3
-        # everything else: strings that cannot collide with the registered ones
-        return 'ext-rt/%s/%s/%s' % (extlib.shape_family(sh), ax, ('exc:%s' % obs.get('exc')) if 'err' in obs else 'mismatch')
+        tag = msg_tag(msg)
+        known = explained(case, obs)          # the mechanism of an open finding, re-derived from case + observation
+        if tag in known:
+            return known[tag]
+        # everything else: the violated clause (+ the raising operation and exception class); cannot collide with the above
+        extra = '/%s/exc:%s' % (obs.get('stage'), obs.get('exc')) if tag == 'raised' else ''
+        return 'ext-rt/%s/%s/%s%s' % (extlib.shape_family(E['shape']), axis_name(E, case['dim']), tag, extra)
 
     @staticmethod
     def nontrivial(case, obs):
@@ -314,9 +464,8 @@ class ExtRoundtripPart:
 
 # ------------------------------------------------------------------------------------------------ image level: chains
 
-def gen_chain_case(rng, tier):
-    maxlen = 2 if tier == 'quick' else 4
-    hi = 3
+def gen_chain_wrapper(rng, tier):
+    hi = 3 if tier == 'quick' or rng.random() < 0.7 else 4
     nd = rng.choice([3, 4, 4, 5, 5])
     sl = rng.choice([0, 1, 2])
     sh = [rng.randint(1, hi) for _ in range(nd)]
@@ -326,14 +475,31 @@ def gen_chain_case(rng, tier):
     kind = rng.choice(['diag', 'perm', 'oblique', 'oblique', 'shear'])
     A = imglib.gen_img_affine(rng, kind, keep=sl)
     E = gen_canonical_ext(rng, 'quick', shape=list(sh), sdim=sl, aff=A, nkeys=rng.randint(1, 4))
-    dims_ok = rt_dims(E)
+    return {'img': imglib.mk_I(rng, sh, A, sl, rng.randrange(0, 20) * 1000), 'ext': E}, kind
+
+
+def gen_chain_case(rng, tier):
+    maxlen = 3 if tier == 'quick' else 4
+    W, kind = gen_chain_wrapper(rng, tier)
+    dims_ok = rt_dims(W['ext'])
     dims = [rng.choice(dims_ok) for _ in range(rng.randint(1, maxlen))]
-    W = {'img': imglib.mk_I(rng, sh, A, sl, rng.randrange(0, 20) * 1000), 'ext': E}
-    return {'kind': 'chain/%dD/len%d' % (nd, len(dims)), 'affine': kind, 'w': W, 'dims': dims}
+    return {'kind': 'chain/%dD/len%d' % (len(W['img']['shape']), len(dims)), 'affine': kind, 'w': W, 'dims': dims}
+
+
+def gen_nested_case(rng, tier):
+    """split along a, split EVERY piece along b, merge each back along b, then merge the results along a."""
+    while True:
+        W, kind = gen_chain_wrapper(rng, tier)
+        ok = rt_dims(W['ext'])
+        if len(ok) >= 2:
+            break
+    a, b = rng.sample(ok, 2)
+    return {'kind': 'nested/%dD/%s-in-%s' % (len(W['img']['shape']), axis_name(W['ext'], b), axis_name(W['ext'], a)),
+            'affine': kind, 'w': W, 'a': a, 'b': b}
 
 
 def _lookups(w, keys):
-    """get_meta of every key at every voxel index (default None)."""
+    """get_meta of every key at every voxel index (default None), C order."""
     shape = [int(x) for x in w.nii_img.shape]
     out = {}
     for k in keys:
@@ -342,6 +508,7 @@ def _lookups(w, keys):
             try:
                 tab.append(extlib._plain(w.get_meta(k, idx, None)))
             except Exception as e:      # noqa: BLE001
+                _no_timeout(e)
                 tab.append({'__exc__': type(e).__name__})
         out[k] = tab
     return out
@@ -352,42 +519,88 @@ def snapshot_w(p, keys):
     return {'img': repr(imglib.snapshot(p)[:5]), 'ext': snapshot_ext(p.meta_ext), 'lookups': _lookups(p, keys)}
 
 
+def _live(pieces, keys):
+    live = []
+    for p in pieces:
+        try:
+            live.append(snapshot_w(p, keys))
+        except Exception as e:    # noqa: BLE001  (an input damaged so badly that it cannot even be read)
+            _no_timeout(e)
+            live.append({'img': None, 'ext': {'valid': False}, 'lookups': 'exc:' + type(e).__name__})
+    return live
+
+
+def _merge_observed(NW, pieces, d, keys, step):
+    """from_sequence(pieces, d) with the clauses about its inputs: snapshots before, live objects afterwards, second merge."""
+    snaps = [snapshot_w(p, keys) for p in pieces]             # BEFORE the merge
+    merged = NW.from_sequence(pieces, d)
+    step['merged'] = dict(imglib.observe(merged), lookups=_lookups(merged, keys))
+    live = _live(pieces, keys)                                # the live inputs AFTER the merge
+    step['pieces_changed'] = [i for i, (x, y) in enumerate(zip(snaps, live)) if x != y]
+    step['pieces_invalid'] = [i for i, y in enumerate(live) if not y['ext']['valid']]
+    try:
+        m2 = imglib.observe(NW.from_sequence(pieces, d))      # the same objects merged a second time
+        step['second'] = {'same': m2 == imglib.observe(merged)}
+    except Exception as e:    # noqa: BLE001
+        _no_timeout(e)
+        step['second'] = {'exc': type(e).__name__, 'msg': str(e)[:200]}
+    return merged, snaps
+
+
 def run_chain(case):
     np, dcmmeta = extlib._imports()
     NW = dcmmeta.NiftiWrapper
     w = imglib.build_w(case['w'])
     before = imglib.snapshot(w)
     keys = [k for k, _, _ in case['w']['ext']['entries']]
-    out = {'in_ext': extlib.ext_to_json(w.meta_ext), 'start': imglib.observe(w), 'steps': []}
+    out = {'in_ext': extlib.ext_to_json(w.meta_ext), 'steps': []}
     cur = w
     try:
         for d in case['dims']:
-            pieces = list(cur.split(d))
-            snaps = [snapshot_w(p, keys) for p in pieces]         # BEFORE the merge
-            step = {'pieces': [{'data': [int(x) for x in np.asanyarray(p.nii_img.dataobj).ravel()],
-                                'shape': [int(x) for x in p.nii_img.shape], 'lookups': sn['lookups'],
-                                'ext': sn['ext']['abs']} for p, sn in zip(pieces, snaps)]}
+            step = {}
             out['steps'].append(step)
-            merged = NW.from_sequence(pieces, d)
-            step['merged'] = imglib.observe(merged)
+            pieces = list(cur.split(d))
+            step['pieces'] = [dict(imglib.observe(p), lookups=_lookups(p, keys)) for p in pieces]
+            merged, _ = _merge_observed(NW, pieces, d, keys, step)
             step['merged_eq'] = bool(merged.meta_ext == w.meta_ext)
-            live = []                                             # the live inputs AFTER the merge
-            for p in pieces:
-                try:
-                    live.append(snapshot_w(p, keys))
-                except Exception as e:    # noqa: BLE001  (an input damaged so badly that it cannot even be read)
-                    live.append({'img': None, 'ext': {'valid': False}, 'lookups': 'exc:' + type(e).__name__})
-            step['pieces_changed'] = [i for i, (a, b) in enumerate(zip(snaps, live)) if a != b]
-            step['pieces_invalid'] = [i for i, b in enumerate(live) if not b['ext']['valid']]
-            try:
-                m2 = imglib.observe(NW.from_sequence(pieces, d))  # the same objects merged a second time
-                step['second'] = {'same': m2 == step['merged']}
-            except Exception as e:    # noqa: BLE001
-                step['second'] = {'exc': type(e).__name__, 'msg': str(e)[:200]}
             again = list(merged.split(d))
             step['resplit'] = [dict(imglib.observe(p), lookups=_lookups(p, keys)) for p in again]
             cur = merged
-    except Exception as e:        # noqa: BLE001
+    except Exception as e:        # noqa: BLE001  (CaseTimeout is re-raised)
+        _no_timeout(e)
+        out.update(imglib._err(e))
+    out['untouched'] = imglib.snapshot(w) == before
+    return out
+
+
+def run_nested(case):
+    np, dcmmeta = extlib._imports()
+    NW = dcmmeta.NiftiWrapper
+    w = imglib.build_w(case['w'])
+    before = imglib.snapshot(w)
+    keys = [k for k, _, _ in case['w']['ext']['entries']]
+    a, b = case['a'], case['b']
+    out = {'in_ext': extlib.ext_to_json(w.meta_ext), 'outer': [], 'inner': []}
+    try:
+        Pa = list(w.split(a))
+        out['outer'] = [dict(imglib.observe(p), lookups=_lookups(p, keys)) for p in Pa]
+        snapsA = [snapshot_w(p, keys) for p in Pa]
+        P2 = []
+        for p in Pa:
+            step = {}
+            out['inner'].append(step)
+            Pb = list(p.split(b))
+            step['pieces'] = [dict(imglib.observe(q), lookups=_lookups(q, keys)) for q in Pb]
+            p2, _ = _merge_observed(NW, Pb, b, keys, step)
+            P2.append(p2)
+        liveA = _live(Pa, keys)                               # splitting a piece must leave the piece alone
+        out['outer_changed'] = [i for i, (x, y) in enumerate(zip(snapsA, liveA)) if x != y]
+        final = {}
+        out['final'] = final
+        merged, _ = _merge_observed(NW, P2, a, keys, final)
+        final['merged_eq'] = bool(merged.meta_ext == w.meta_ext)
+    except Exception as e:        # noqa: BLE001  (CaseTimeout is re-raised)
+        _no_timeout(e)
         out.update(imglib._err(e))
     out['untouched'] = imglib.snapshot(w) == before
     return out
@@ -406,74 +619,216 @@ def chain_to_coq(case, obs):
                                             clist(items), cbool(bool(obs['untouched'])))
 
 
+def nested_to_coq(case, obs):
+    if 'crash' in obs or 'in_ext' not in obs:
+        raise ValueError('no observation')
+    if 'err' in obs or 'final' not in obs or 'merged' not in obs['final']:
+        inner, final = '[]', '(WErr %s)' % obs.get('err', 'ECrash')
+    else:
+        inner = clist(imglib.wobs_to_coq(st['merged']) for st in obs['inner'])
+        final = imglib.wobs_to_coq(obs['final']['merged'])
+    return '(mk_nested_case %s %s %s %s %s %s)' % (imglib.w_to_coq(case['w'], obs['in_ext']), cnat(case['a']), cnat(case['b']),
+                                                  inner, final, cbool(bool(obs['untouched'])))
+
+
+# ---- generator ground truth for wrappers (nothing below calls the library)
+
+def sub_indices(sh, fixed):
+    """The voxel indices of an image of shape sh whose coordinates listed in `fixed` (axis -> value) are pinned, in C order.
+    Dropping or keeping singleton axes does not change the C order, so this is the voxel order of the corresponding piece."""
+    return [idx for idx in itertools.product(*[range(x) for x in sh]) if all(idx[ax] == v for ax, v in fixed.items())]
+
+
+def truth_of(W, fixed):
+    """What a faithful piece of W (coordinates `fixed` pinned) must contain: shape, voxels, affine, lookups -- from the
+    generator's image and extension only (documented layout, extlib.den)."""
+    I, E = W['img'], W['ext']
+    sh = I['shape']
+    idxs = sub_indices(sh, fixed)
+    strides = [1] * len(sh)
+    for i in range(len(sh) - 2, -1, -1):
+        strides[i] = strides[i + 1] * sh[i + 1]
+    data = [I['data'][sum(x * y for x, y in zip(idx, strides))] for idx in idxs]
+    psh = list(sh)
+    for ax in sorted(fixed, reverse=True):
+        if ax >= 3 and ax == len(psh) - 1:
+            psh = psh[:-1]
+        else:
+            psh[ax] = 1
+    psh = trimmed(psh)
+    A = imglib.fmat(I['aff'])
+    for ax, v in fixed.items():
+        if ax < 3:
+            for r in range(3):
+                A[r][3] = A[r][3] + v * A[r][ax]
+    sd = E['sdim']
+    lookups = {}
+    for k, _, _ in E['entries']:
+        lookups[k] = [extlib.den(E, k, (idx[sd], idx[3] if len(idx) > 3 else 0, idx[4] if len(idx) > 4 else 0)) for idx in idxs]
+    return {'shape': psh, 'data': data, 'aff': A, 'lookups': lookups}
+
+
+def against_truth(O, T, what, slice_dim, check_shape=True):
+    """Observed wrapper O (imglib.observe + lookups) against generator truth T -> [(tag, text)]"""
+    out = []
+    if check_shape and O['shape'] != T['shape']:
+        out.append(('shape', '%s: image shape %r, expected %r' % (what, O['shape'], T['shape'])))
+    if O['data'] != T['data']:
+        out.append(('data', '%s: voxel data are not the expected voxels of the original' % what))
+    if imglib.fmat(O['aff']) != T['aff']:
+        out.append(('affine', '%s: affine %r, expected %r' % (what, O['aff'], [[float(x) for x in r] for r in T['aff']])))
+    if O['slice'] != slice_dim:
+        out.append(('slice-dim', '%s: header slice dim %r, original %r' % (what, O['slice'], slice_dim)))
+    if O['ext']['shape'] != O['shape'] or O['ext']['sdim'] != slice_dim:
+        out.append(('ext-header', '%s: extension shape %r / slice dim %r do not match the image' % (what, O['ext']['shape'], O['ext']['sdim'])))
+    for k, tab in T['lookups'].items():
+        got = O['lookups'].get(k)
+        if got != tab:
+            j = [x != y for x, y in zip(got or [], tab)].index(True) if got and len(got) == len(tab) and got != tab else 0
+            gv = got[j] if got and j < len(got) else None
+            if isinstance(gv, dict) and '__exc__' in gv:
+                out.append(('lookup-raised', '%s: get_meta(%r) raised %s at voxel %d' % (what, k, gv['__exc__'], j)))
+            else:
+                out.append(('lookup', '%s: get_meta(%r) at voxel %d reads %r, the original holds %r there' % (what, k, j, gv, tab[j] if tab else None)))
+            break
+    return out
+
+
+def ext_mod_translation(X):
+    """An extension without the translation column of its affine: NiftiWrapper.split leaves the parent's affine in the
+    extension of a spatially shifted piece, NiftiWrapper.from_sequence writes the image's; the property does not speak
+    about it (lookups only use the direction rows)."""
+    Y = dict(X)
+    Y['aff'] = [list(r[:3]) for r in X['aff'][:3]]
+    return Y
+
+
+def merged_messages(W, M, merged_eq, where):
+    """A merged wrapper against the ORIGINAL (generator ground truth)."""
+    out = against_truth(M, truth_of(W, {}), '%s: merged image' % where, W['img']['slice'])
+    E, X = W['ext'], M['ext']
+    if X != E:
+        if (X['shape'], X['sdim'], X['aff']) != (E['shape'], E['sdim'], E['aff']):
+            out.append(('ext-header', '%s: merged extension header (shape %r, slice dim %r, affine) differs from the original'
+                        % (where, X['shape'], X['sdim'])))
+        a, b = extlib.entry_map(E), extlib.entry_map(X)
+        bad = [k for k in sorted(set(a) | set(b)) if a.get(k) != b.get(k)]
+        if bad:
+            out.append(('key-value', '%s: key %r: original %r, merged %r' % (where, bad[0], a.get(bad[0]), b.get(bad[0]))))
+        elif not out or out[-1][0] != 'ext-header':
+            out.append(('abstraction', '%s: merged extension differs from the original' % where))
+    if not merged_eq:
+        out.append(('eq', '%s: merged extension != original (DcmMetaExtension.__eq__)' % where))
+    return out
+
+
+def resplit_messages(P, Q, where):
+    """merge then split: the pieces Q of the merged wrapper against the pieces P observed BEFORE the merge."""
+    out = []
+    if len(P) != len(Q):
+        return [('resplit-count', '%s: %d pieces merged, %d pieces after splitting again' % (where, len(P), len(Q)))]
+    for i, (p, q) in enumerate(zip(P, Q)):
+        if p['shape'] != q['shape'] or p['data'] != q['data']:
+            out.append(('resplit-data', '%s: merge then split: piece %d does not carry the voxels of input %d' % (where, i, i)))
+        elif imglib.fmat(p['aff']) != imglib.fmat(q['aff']) or p['slice'] != q['slice']:
+            out.append(('resplit-geometry', '%s: merge then split: piece %d has another affine / slice dim than input %d' % (where, i, i)))
+        elif p['ext'] != q['ext']:
+            out.append(('resplit-ext', "%s: merge then split: the extension of piece %d differs from the input's as it was before "
+                        'the merge' % (where, i)))
+        elif p['lookups'] != q['lookups']:
+            out.append(('resplit-lookup', '%s: merge then split: piece %d answers get_meta differently from input %d' % (where, i, i)))
+        if out:
+            break
+    return out
+
+
+def chain_messages(case, obs):
+    W = case['w']
+    sl = W['img']['slice']
+    if 'err' in obs:
+        return [('raised', 'chain %r raised %s at step %d: %s' % (case['dims'], obs.get('exc'), len(obs['steps']), obs.get('msg')))]
+    out = []
+    if obs.get('untouched') is False:
+        out.append(('original-modified', 'the chain modified the starting image / extension'))
+    for n, (d, st) in enumerate(zip(case['dims'], obs['steps'])):
+        where = 'step %d (dim %d)' % (n, d)
+        for i, p in enumerate(st['pieces']):              # split: every piece against the generator's truth
+            out += against_truth(p, truth_of(W, {d: i}), '%s: piece %d' % (where, i), sl)
+        out += merged_messages(W, st['merged'], st['merged_eq'], where)
+        out += [(t, '%s: %s' % (where, m)) for t, m in input_messages(st, 'NiftiWrapper.from_sequence')]
+        out += resplit_messages(st['pieces'], st['resplit'], where)
+    if len(obs['steps']) != len(case['dims']):
+        out.append(('incomplete', 'chain stopped after %d of %d steps' % (len(obs['steps']), len(case['dims']))))
+    return out
+
+
+def nested_messages(case, obs):
+    W, a, b = case['w'], case['a'], case['b']
+    sl = W['img']['slice']
+    if 'err' in obs:
+        return [('raised', 'nested history (split %d, split %d, merge %d, merge %d) raised %s after %d inner merges: %s' % (
+            a, b, b, a, obs.get('exc'), len([s for s in obs['inner'] if 'merged' in s]), obs.get('msg')))]
+    out = []
+    if obs.get('untouched') is False:
+        out.append(('original-modified', 'the history modified the starting image / extension'))
+    if obs.get('outer_changed'):
+        out.append(('input-modified', 'splitting piece %d along %d modified that piece' % (obs['outer_changed'][0], b)))
+    for i, (p, st) in enumerate(zip(obs['outer'], obs['inner'])):
+        where = 'piece %d of the split along %d' % (i, a)
+        Tp = truth_of(W, {a: i})
+        out += against_truth(p, Tp, where, sl)
+        for j, q in enumerate(st['pieces']):
+            out += against_truth(q, truth_of(W, {a: i, b: j}), '%s: sub-piece %d along %d' % (where, j, b), sl)
+        M = st['merged']                                   # the piece merged back along b: the piece again
+        out += against_truth(M, Tp, '%s merged back along %d' % (where, b), sl)
+        if ext_mod_translation(M['ext']) != ext_mod_translation(p['ext']):
+            out.append(('inner-ext', '%s: after split along %d and merge the extension differs from the piece\'s' % (where, b)))
+        out += [(t, '%s: %s' % (where, m)) for t, m in input_messages(st, 'NiftiWrapper.from_sequence')]
+    fin = obs['final']
+    out += merged_messages(W, fin['merged'], fin['merged_eq'], 'final merge along %d' % a)
+    out += [(t, 'final merge: %s' % m) for t, m in input_messages(fin, 'NiftiWrapper.from_sequence')]
+    return out
+
+
+def _first(msgs):
+    return '[%s] %s' % msgs[0] if msgs else None
+
+
 def oracle_chain(case, obs):
     if 'crash' in obs:
-        return 'harness: %s %s' % (obs.get('crash'), obs.get('msg'))
-    I, E = case['w']['img'], case['w']['ext']
-    if 'err' in obs:
-        return 'chain %r raised %s at step %d: %s' % (case['dims'], obs.get('exc'), len(obs['steps']), obs.get('msg'))
-    if obs.get('untouched') is False:
-        return 'the chain modified the starting image / extension'
-    for n, (d, st) in enumerate(zip(case['dims'], obs['steps'])):
-        M = st['merged']
-        where = 'step %d (dim %d)' % (n, d)
-        if M['shape'] != I['shape']:
-            return '%s: merged shape %r, original %r' % (where, M['shape'], I['shape'])
-        if M['data'] != I['data']:
-            return '%s: merged voxel data differ from the original' % where
-        if imglib.fmat(M['aff']) != imglib.fmat(I['aff']):
-            return '%s: merged affine %r, original %r' % (where, M['aff'], I['aff'])
-        if M['slice'] != I['slice']:
-            return '%s: merged header slice dim %r, original %r' % (where, M['slice'], I['slice'])
-        if M['ext'] != E:
-            X = M['ext']
-            if (X['shape'], X['sdim'], X['aff']) != (E['shape'], E['sdim'], E['aff']):
-                return '%s: merged extension header (shape %r, slice dim %r, affine) differs from the original' % (where, X['shape'], X['sdim'])
-            a, b = extlib.entry_map(E), extlib.entry_map(X)
-            for k in sorted(set(a) | set(b)):
-                if a.get(k) != b.get(k):
-                    return '%s: key %r: original %r, merged %r' % (where, k, a.get(k), b.get(k))
-            return '%s: merged extension differs from the original' % where
-        if not st['merged_eq']:
-            return '%s: merged extension != original (DcmMetaExtension.__eq__)' % where
-        m = judge_inputs(st, 'NiftiWrapper.from_sequence')
-        if m:
-            return '%s: %s' % (where, m)
-        P, Q = st['pieces'], st['resplit']
-        if len(P) != len(Q):
-            return '%s: %d pieces merged, %d pieces after splitting again' % (where, len(P), len(Q))
-        for i, (p, q) in enumerate(zip(P, Q)):
-            if p['shape'] != q['shape'] or p['data'] != q['data']:
-                return '%s: merge then split: piece %d does not carry the voxels of input %d' % (where, i, i)
-            if p['ext'] != q['ext']:
-                return '%s: merge then split: the extension of piece %d differs from the input\'s as it was before the merge' % (where, i)
-            for k in p['lookups']:
-                if p['lookups'][k] != q['lookups'][k]:
-                    j = [x != y for x, y in zip(p['lookups'][k], q['lookups'][k])].index(True)
-                    return '%s: merge then split: piece %d key %r voxel %d reads %r, the input read %r' % (
-                        where, i, k, j, q['lookups'][k][j], p['lookups'][k][j])
-    if len(obs['steps']) != len(case['dims']):
-        return 'chain stopped after %d of %d steps' % (len(obs['steps']), len(case['dims']))
-    return None
+        return '[harness] %s %s' % (obs.get('crash'), obs.get('msg'))
+    return _first(chain_messages(case, obs))
+
+
+def oracle_nested(case, obs):
+    if 'crash' in obs:
+        return '[harness] %s %s' % (obs.get('crash'), obs.get('msg'))
+    return _first(nested_messages(case, obs))
+
+
+CHAIN_REQ = ('From DV Require Import Common.Jv Ext.Types Ext.Model Ext.Corr Orient.Model Wrapper.Model Wrapper.Corr '
+             'Ext.ProofsRoundtrip Ext.ProofsRoundtripCorr.')
 
 
 class ChainPart:
     NAME = 'chains'
-    CORR_REQUIRE = ExtRoundtripPart.CORR_REQUIRE
+    CORR_REQUIRE = CHAIN_REQ
     CORR_CASE_TYPE = 'chain_case'
     CORR_CHECK = 'check_chain'
     CORR_SHOW = 'show_chain'
     SHARD = 25
     IMPL_TIMEOUT = 60
-    RULE = ('in-memory Nifti images (3-5 D, extents 1..3, >= 2 on the slice axis, unique voxel values, int16/int32) with axis-aligned '
-            'anisotropic, axis-permuted and integer-Pythagorean oblique affines (NON-symmetric 3x3, sheared variants; dyadic and '
-            'float32-exact), header slice dim = extension slice dim, canonical extension with 1-4 keys; random chains of length <= 2 '
-            '(quick) / <= 4 (thorough) over the slice / time / vector axes with >= 2 positions; after every merge the merged image is '
-            'split again along the same axis; non-trivial = some key in a varying class')
+    RULE = ('in-memory Nifti images (3-5 D, extents 1..3, in thorough also 4, >= 2 on the slice axis, unique voxel values, int16/int32) '
+            'with axis-aligned anisotropic, axis-permuted and integer-Pythagorean oblique affines (NON-symmetric 3x3, sheared variants; '
+            'dyadic and float32-exact), header slice dim = extension slice dim, canonical extension with 1-4 keys; random chains of '
+            'length <= 3 (quick) / <= 4 (thorough) over the slice / time / vector axes with >= 2 positions; every piece, every merged '
+            'image and every get_meta answer is compared with the GENERATOR\'s image and extension (documented layout), the inputs of '
+            'every merge are snapshot before it, and after every merge the merged image is split again; non-trivial = some key in a '
+            'varying class')
 
     @staticmethod
     def gen_cases(rng, tier):
-        return [gen_chain_case(rng, tier) for _ in range(300 if tier == 'quick' else 2000)]
+        return [gen_chain_case(rng, tier) for _ in range(120 if tier == 'quick' else 1500)]
 
     run_impl = staticmethod(run_chain)
     coq_case = staticmethod(chain_to_coq)
@@ -481,7 +836,8 @@ class ChainPart:
 
     @staticmethod
     def signature(case, obs, msg):
-        return 'chain/%s/%s' % (extlib.shape_family(case['w']['img']['shape']), obs.get('exc') if 'err' in obs else 'wrong-result')
+        extra = '/exc:%s' % obs.get('exc') if 'err' in obs else ''
+        return 'chain/%s%s' % (msg_tag(msg), extra)
 
     @staticmethod
     def nontrivial(case, obs):
@@ -500,25 +856,66 @@ class ChainPart:
             yield c
 
 
-PARTS = [ExtRoundtripPart, ChainPart]
+class NestedPart:
+    NAME = 'nested'
+    CORR_REQUIRE = CHAIN_REQ
+    CORR_CASE_TYPE = 'nested_case'
+    CORR_CHECK = 'check_nested'
+    CORR_SHOW = 'show_nested'
+    SHARD = 25
+    IMPL_TIMEOUT = 60
+    RULE = ('NESTED histories on the images of the chains part: split along a, split EVERY piece along b (a != b, both among slice / '
+            'time / vector with >= 2 positions), merge each piece back along b, merge the results along a.  Every piece, sub-piece, '
+            're-merged piece and the final image are compared with the generator\'s image and extension (voxels, exact affine incl. '
+            'the translation of spatial pieces, slice dim, every get_meta answer); a re-merged piece must carry the piece\'s '
+            'extension; the final extension must be the original\'s; inputs of every merge snapshot / compared / merged twice; '
+            'non-trivial = some key in a varying class')
+
+    @staticmethod
+    def gen_cases(rng, tier):
+        return [gen_nested_case(rng, tier) for _ in range(80 if tier == 'quick' else 800)]
+
+    run_impl = staticmethod(run_nested)
+    coq_case = staticmethod(nested_to_coq)
+    oracle = staticmethod(oracle_nested)
+
+    @staticmethod
+    def signature(case, obs, msg):
+        extra = '/exc:%s' % obs.get('exc') if 'err' in obs else ''
+        return 'nested/%s%s' % (msg_tag(msg), extra)
+
+    @staticmethod
+    def nontrivial(case, obs):
+        return any(c != 'GConst' for _, c, _ in case['w']['ext']['entries'])
+
+    @staticmethod
+    def shrink(case):
+        for F in extlib.shrink_E(case['w']['ext']):
+            c = copy.deepcopy(case)
+            c['w']['ext'] = F
+            yield c
 
 
-# source tie (integrator): the helper functions the extension model rests on are TRANSLATED from the Python AST on every
-# run (tools/tables/py2coq.py, t_src_ext.py -> Generated/T_src_ext.v) and the hand models are proved equal to the translation
+PARTS = [ExtRoundtripPart, ChainPart, NestedPart]
+
+
+# source tie (integrator): the pure helper functions of the extension algebra are TRANSLATED from the Python AST on every run
+# (tools/tables/t_src_ext.py -> Generated/T_src_ext.v) and the hand model is proved equal to the translation (Props/SRC.v)
 COQ_PROPS = (list(COQ_PROPS) if isinstance(COQ_PROPS, (list, tuple)) else [COQ_PROPS]) + ['Props/SRC.v']
 THEOREMS = list(THEOREMS) + ['SRC_valid_classes', 'SRC_class_valid', 'SRC_multiplicity', 'SRC_is_constant', 'SRC_is_repeating', 'SRC_const_period', 'SRC_n_slices']
 TABLES = sorted(set(list(globals().get('TABLES') or ['t_classes', 't_ext_tol']) + ['t_src_ext', 't_classes', 't_ext_tol']))
-TRUSTED_BASE = list(TRUSTED_BASE) + ['tools/tables/py2coq.py + t_src_ext.py: typed fail-closed translator of is_constant, is_repeating, get_valid_classes, get_multiplicity, _get_const_period, n_slices into Gallina; coq/Common/PyOps2.v as the meaning of the translated primitives']
 
-
-# source tie, stage A (integrator): _global_slice_subset and _get_changed_class are TRANSLATED from the AST on every run and the
-# hand model (global_slice_subset, changed_class) is proved equal to the translation on stored content (Props/SRCalg.v)
+# source tie, stage A (integrator): _global_slice_subset and _get_changed_class (Props/SRCalg.v)
 COQ_PROPS = list(COQ_PROPS) + ['Props/SRCalg.v']
 THEOREMS = list(THEOREMS) + ['SRC_global_slice_subset', 'SRC_changed_class']
 
-
-# source tie, stage B (integrator): _change_class / _simplify are TRANSLATED in state-passing form (t_src_state.py) and the per-key
-# model (change_class_k, simplify_k) is proved to be a refinement of the translation on the stored content (Props/SRCstate.v)
+# source tie, stage B (integrator): _change_class / _simplify in state-passing form (Props/SRCstate.v)
 COQ_PROPS = list(COQ_PROPS) + ['Props/SRCstate.v']
 THEOREMS = list(THEOREMS) + ['SRC_change_class', 'SRC_simplify', 'SRC_to_content_holds']
 TABLES = sorted(set(list(TABLES) + ['t_src_state', 't_content', 't_cli']))
+
+
+# source tie, stage C (integrator): _copy_slice is TRANSLATED in state-passing form and copy_slice_k folded over the source class
+# dictionary is proved equal to the translation (Props/SRCsubset.v)
+COQ_PROPS = list(COQ_PROPS) + ['Props/SRCsubset.v']
+THEOREMS = list(THEOREMS) + ['SRC_copy_slice_step', 'SRC_copy_slice']
